@@ -37,7 +37,7 @@ func (engC17) ID() string    { return "C17" }
 func (engC17) Level() string { return "exploration" }
 func (engC17) Runs(tier string) int {
 	if tier == "thorough" {
-		return 2500000
+		return 1500000
 	}
 	return 16000
 }
